@@ -111,4 +111,11 @@ PROPS["C12"] = {
     "assumptions": ["the ConnEnd returned right after a reroute has no active pin yet, so route ends are compared with the attached shape's pins", "junctions listed as deleted but not yet freed are ignored"],
     "parts": [{"name": "hyperedge", "src": "c12_hyperedge.cpp", "quick": T(120, 20, [], 100), "thorough": T(1700, 30, [], 100)}],
 }
+PROPS["C11"] = {
+    "heap": True,
+    "rule": "one 20x20 shape; pin sets = every non-empty subset of {L,R,T,B centre} plus two pins on one side, proportional or absolute offsets, insideOffset 3 (0 in a separate sub-alphabet), direction mask automatic / explicit side / all, exclusivity default / forced / shared; 1-2 connectors from the pin class to free grid points or to a junction; 0-2 checkpoints; then nothing / translate / resize and a second transaction; both routing modes; ascending and descending heap addresses. Oracle: pin-attached end equals position() of some pin of the class after the move; orthogonal routes leave in a permitted direction; no exclusive pin position used twice; checkpoints visited in order; junction ends at the junction position; free ends unmoved. Non-trivial = the class has more than one pin.",
+    "bounds": {"quick": "17 pin sets x 3 moves (explicit directions) + 8 option variants on 6 pin sets, k<=2", "thorough": "full product of offsets x direction mask x exclusivity x move x far-end kind on 17 pin sets"},
+    "assumptions": ["the number of connectors does not exceed the number of pins when all pins are exclusive ('provided a free pin exists')"],
+    "parts": [{"name": "pins", "src": "c11_pins.cpp", "quick": T(120, 20, [], 100), "thorough": T(1700, 30, [], 100)}],
+}
 NOT_APPLICABLE = {}
